@@ -51,7 +51,9 @@ func NewTable(name string) *Table {
 // SetAttributeDefinition sets the attribute definition of a table
 func (t *Table) SetAttributeDefinition(attrs []*types.AttributeDefinition) {
 	for _, attr := range attrs {
-		t.AttributesDef[*attr.AttributeName] = *attr.AttributeType
+		// a definition without a type (the zero value of the SDK v2 enum) is kept as such: it is no key type,
+		// so the schema validation rejects it for a key attribute
+		t.AttributesDef[types.StringValue(attr.AttributeName)] = types.StringValue(attr.AttributeType)
 	}
 }
 
